@@ -187,7 +187,10 @@ PROPS = {
     "C02": dict(
         generated=True,
         lean=["GolibsVerif.Props.C02Spec", "GolibsVerif.Props.Lin", "GolibsVerif.Props.C03", "GolibsVerif.Props.C02Redis"],
-        seq=[],
+        # the sequential histories of C03 carry the contract's version monitors too (fresh version on every
+        # successful write incl. same-value writes, at most one CAS success per version): here they count
+        seq=[dict(comp="kvinmem", driver="kv", args=["-focus", "C02"], decisive=lambda d: d["op"].startswith("mon C02") or d["op"].split(" ")[1:2] == ["cas"]),
+             dict(comp="kvredis", driver="kv", args=["-focus", "C02"], decisive=lambda d: d["op"].startswith("mon C02") or d["op"].split(" ")[1:2] == ["cas"])],
         go_cmds=("seq", "conc"),
         facts={"inmem.single_section_methods": ["CasByVersion", "Create", "Delete", "Get", "GetMany", "ListKeys", "Put", "PutMany"],
                "inmem.other_methods": ["WaitForVersionChange"]},
